@@ -701,11 +701,36 @@ Proof.
   unfold schedule_new_tasks. destruct (Nat.leb _ _); [discriminate|]. apply schedule_k_err.
 Qed.
 
+Lemma loop_0 st c ex : loop prm o 0 st c ex = (st, LFuel).
+Proof. reflexivity. Qed.
+Lemma loop_S f st c ex :
+  loop prm o (S f) st c ex =
+  if while_cond prm st c then
+    let '(st, err) := poll prm o st in
+    match err with
+    | Some e => (st, LExit (Some e))
+    | None =>
+        if ex || (wait_completion prm && c) then
+          match s_running st with
+          | [] => (st, LExit None)
+          | _ :: _ => let '(st, c') := iteration_end prm o (sleep st) in loop prm o f st c' ex
+          end
+        else
+          let '(st, r) := schedule_new_tasks prm o st in
+          match r with
+          | SErr e => (st, LExit (Some e))
+          | SStopIteration => let '(st, c') := iteration_end prm o st in loop prm o f st c' true
+          | SOk => let '(st, c') := iteration_end prm o st in loop prm o f st c' ex
+          end
+    end
+  else (st, LExit None).
+Proof. reflexivity. Qed.
+
 Lemma loop_budget fuel : forall st c ex st' x,
   loop prm o fuel st c ex = (st', x) -> binv st ->
   binv st' /\ x <> LExit (Some EAssertBudget).
 Proof.
-  induction fuel as [|f IH]; intros st c ex st' x H Hb; simpl in H.
+  induction fuel as [|f IH]; intros st c ex st' x H Hb; [rewrite loop_0 in H|rewrite loop_S in H].
   - injection H as <- <-. split; [exact Hb|discriminate].
   - destruct (while_cond prm st c); [|injection H as <- <-; split; [exact Hb|discriminate]].
     destruct (poll prm o st) as [st1 err] eqn:Ep.
@@ -976,28 +1001,6 @@ Proof.
   - intro H. rewrite HP in H. discriminate.
 Qed.
 
-Lemma loop_S f st c ex :
-  loop prm o (S f) st c ex =
-  if while_cond prm st c then
-    let '(st, err) := poll prm o st in
-    match err with
-    | Some e => (st, LExit (Some e))
-    | None =>
-        if ex || (wait_completion prm && c) then
-          match s_running st with
-          | [] => (st, LExit None)
-          | _ :: _ => let '(st, c') := iteration_end prm o (sleep st) in loop prm o f st c' ex
-          end
-        else
-          let '(st, r) := schedule_new_tasks prm o st in
-          match r with
-          | SErr e => (st, LExit (Some e))
-          | SStopIteration => let '(st, c') := iteration_end prm o st in loop prm o f st c' true
-          | SOk => let '(st, c') := iteration_end prm o st in loop prm o f st c' ex
-          end
-    end
-  else (st, LExit None).
-Proof. reflexivity. Qed.
 
 Lemma loop_guarded (P : event -> bool) :
   (forall c f, P (EStopCond c f) = false) ->
@@ -1006,7 +1009,7 @@ Lemma loop_guarded (P : event -> bool) :
     guarded P (s_trace st) -> flag_of (s_trace st) = c -> guarded P (s_trace st').
 Proof.
   intros HP1 HP2. induction fuel as [|f IH]; intros st c ex st' x H Hg Hf.
-  - simpl in H. injection H as <- <-. exact Hg.
+  - rewrite loop_0 in H. injection H as <- <-. exact Hg.
   - rewrite loop_S in H. destruct (while_cond prm st c) eqn:Ew; [|injection H as <- <-; exact Hg].
     (* inside the body either the flag is false, or wait=true and only non-scheduling events are emitted *)
     assert (Hcase : c = false \/ (c = true /\ wait_completion prm = true)).
@@ -1171,7 +1174,7 @@ Proof.
   assert (Ws : forall a b, ext sched_sleep_ev a b -> ext loop_ev a b).
   { intros a b. apply ext_weaken. intros e He. unfold loop_ev. rewrite He, orb_true_r. destruct e; reflexivity. }
   induction fuel as [|f IH]; intros st c ex st' x H.
-  - simpl in H. injection H as <- <-. apply ext_refl.
+  - rewrite loop_0 in H. injection H as <- <-. apply ext_refl.
   - rewrite loop_S in H. destruct (while_cond prm st c); [|injection H as <- <-; apply ext_refl].
     destruct (poll prm o st) as [st1 err] eqn:Ep. apply poll_ext, Wp in Ep.
     destruct err; [injection H as <- <-; exact Ep|].
@@ -1482,7 +1485,7 @@ Lemma loop_sinv fuel : forall st c ex st' x,
   loop prm o fuel st c ex = (st', x) -> binv st -> sinv st -> sinv st'.
 Proof.
   induction fuel as [|f IH]; intros st c ex st' x H Hb Hs.
-  - simpl in H. injection H as <- <-. exact Hs.
+  - rewrite loop_0 in H. injection H as <- <-. exact Hs.
   - rewrite loop_S in H. destruct (while_cond prm st c); [|injection H as <- <-; exact Hs].
     destruct (poll prm o st) as [st1 err] eqn:Ep.
     pose proof Ep as Ep'. apply poll_budget in Ep'; [|exact Hb]. destruct Ep' as (Hb1 & _ & _).
@@ -1643,7 +1646,7 @@ Lemma loop_rule (Ihead Imid : state -> bool -> Prop) (Final : state -> Prop) :
   forall fuel st c ex st' x, loop prm o fuel st c ex = (st', x) -> Ihead st c -> Final st'.
 Proof.
   intros Hfin Hpoll Hmid Hwait Hsched. induction fuel as [|f IH]; intros st c ex st' x H Hi.
-  - simpl in H. injection H as <- <-. eapply Hfin; eauto.
+  - rewrite loop_0 in H. injection H as <- <-. eapply Hfin; eauto.
   - rewrite loop_S in H. destruct (while_cond prm st c) eqn:Ew; [|injection H as <- <-; eapply Hfin; eauto].
     destruct (poll prm o st) as [st1 err] eqn:Ep.
     destruct (Hpoll _ _ _ _ Hi Ew Ep) as [Hp1 Hp2].
@@ -2527,7 +2530,7 @@ Lemma loop_rule2 (Ihead Imid : state -> bool -> bool -> Prop) (Final : state -> 
   forall fuel st c ex st' x, loop prm o fuel st c ex = (st', x) -> Ihead st c ex -> Final st' x.
 Proof.
   intros Hfuel Hexit Hpoll Hbreak Hwait Hsched. induction fuel as [|f IH]; intros st c ex st' x H Hi.
-  - simpl in H. injection H as <- <-. eapply Hfuel; eauto.
+  - rewrite loop_0 in H. injection H as <- <-. eapply Hfuel; eauto.
   - rewrite loop_S in H. destruct (while_cond prm st c) eqn:Ew; [|injection H as <- <-; eapply Hexit; eauto].
     destruct (poll prm o st) as [st1 err] eqn:Ep.
     pose proof (Hpoll _ _ _ _ _ Hi Ew Ep) as Hp.
